@@ -2,6 +2,7 @@ package props
 
 import (
 	"fmt"
+	"os"
 
 	"github.com/jf-tech/omniparser/idr"
 
@@ -320,9 +321,19 @@ func opName(op c12op) string {
 }
 
 func runC12(c *Ctx) []Violation {
-	part := c.T.Weighted("c12.part", 5, 3)
-	if part == 1 {
+	part := c.T.Weighted("c12.part", 10, 6, 3, 1, 4)
+	if p := os.Getenv("VERIF_C12_PART"); p != "" {
+		part = int(p[0] - '0') // developer knob: one family only
+	}
+	switch part {
+	case 1:
 		return runC12Readers(c)
+	case 2:
+		return runC12Direct(c)
+	case 3:
+		return runC12Churn(c)
+	case 4:
+		return runC12Streams(c)
 	}
 	env := baseEnv(c)
 	nOwners := 1 + c.T.Weighted("c12.owners", 4, 3, 2, 1, 1, 1, 1, 1)
